@@ -118,6 +118,9 @@ func (d *Driver) target(cv *Conv) (*Target, error) {
 		return nil, fmt.Errorf("method %s not in interface", cv.Method)
 	}
 	gen := d.L.ByPath[corpusModule+"/"+cv.Group+"/generated"]
+	if cv.OutInInput {
+		gen = in
+	}
 	if gen == nil {
 		return nil, fmt.Errorf("emitted package of %s not loaded", cv.ID)
 	}
